@@ -99,53 +99,40 @@ fn flatten(w: &CW) -> Vec<(SegBits, usize)> {
     w.iter().enumerate().flat_map(|(si, sy)| sy.segs.iter().map(move |s| (*s, si))).collect()
 }
 
-fn before_matches(items: &[It], flat: &[(SegBits, usize)], j: usize) -> bool {
-    // k = index of the nearest unmatched segment to the left, as isize
-    let mut k = j as isize - 1;
-    for it in items.iter().rev() {
-        match it {
-            It::WordB => { if k >= 0 { return false; } }
-            It::SyllB => { if !(k < 0 || flat[k as usize].1 != flat[(k + 1) as usize].1) { return false; } }
-            It::Set(v) if v.iter().any(|m| matches!(m, It::WordB | It::SyllB)) => {
-                // a set with boundary members: alternatives tried in order, boundaries are zero-width
-                let mut hit = false;
-                for m in v {
-                    match m {
-                        It::WordB => { if k < 0 { hit = true; break; } }
-                        It::SyllB => { if k < 0 || flat[k as usize].1 != flat[(k + 1) as usize].1 { hit = true; break; } }
-                        sm => { if k >= 0 && sm.matches_seg(flat[k as usize].0) { k -= 1; hit = true; break; } }
-                    }
-                }
-                if !hit { return false; }
-            }
-            seg_it => { if k < 0 || !seg_it.matches_seg(flat[k as usize].0) { return false; } k -= 1; }
-        }
+// A side of an environment matches if SOME choice of set alternatives makes every item match: a set alternative that matches where it stands
+// but leaves the rest of the side unmatched does not rule out the alternatives after it (boundary members are zero-width)
+fn before_rec(items: &[It], flat: &[(SegBits, usize)], k: isize) -> bool {
+    // items are consumed from the END (nearest the target first); k = index of the nearest unmatched segment to the left
+    let Some((it, rest)) = items.split_last() else { return true };
+    let at_bound = |k: isize| k < 0 || flat[k as usize].1 != flat[(k + 1) as usize].1;
+    match it {
+        It::WordB => k < 0 && before_rec(rest, flat, k),
+        It::SyllB => at_bound(k) && before_rec(rest, flat, k),
+        It::Set(v) if v.iter().any(|m| matches!(m, It::WordB | It::SyllB)) => v.iter().any(|m| match m {
+            It::WordB => k < 0 && before_rec(rest, flat, k),
+            It::SyllB => at_bound(k) && before_rec(rest, flat, k),
+            sm => k >= 0 && sm.matches_seg(flat[k as usize].0) && before_rec(rest, flat, k - 1),
+        }),
+        seg_it => k >= 0 && seg_it.matches_seg(flat[k as usize].0) && before_rec(rest, flat, k - 1),
     }
-    true
 }
-fn after_matches(items: &[It], flat: &[(SegBits, usize)], j: usize) -> bool {
+fn before_matches(items: &[It], flat: &[(SegBits, usize)], j: usize) -> bool { before_rec(items, flat, j as isize - 1) }
+fn after_rec(items: &[It], flat: &[(SegBits, usize)], k: usize) -> bool {
+    let Some((it, rest)) = items.split_first() else { return true };
     let n = flat.len();
-    let mut k = j + 1;
-    for it in items {
-        match it {
-            It::WordB => { if k < n { return false; } }
-            It::SyllB => { if !(k >= n || flat[k].1 != flat[k - 1].1) { return false; } }
-            It::Set(v) if v.iter().any(|m| matches!(m, It::WordB | It::SyllB)) => {
-                let mut hit = false;
-                for m in v {
-                    match m {
-                        It::WordB => { if k >= n { hit = true; break; } }
-                        It::SyllB => { if k >= n || flat[k].1 != flat[k - 1].1 { hit = true; break; } }
-                        sm => { if k < n && sm.matches_seg(flat[k].0) { k += 1; hit = true; break; } }
-                    }
-                }
-                if !hit { return false; }
-            }
-            seg_it => { if k >= n || !seg_it.matches_seg(flat[k].0) { return false; } k += 1; }
-        }
+    let at_bound = |k: usize| k >= n || flat[k].1 != flat[k - 1].1;
+    match it {
+        It::WordB => k >= n && after_rec(rest, flat, k),
+        It::SyllB => at_bound(k) && after_rec(rest, flat, k),
+        It::Set(v) if v.iter().any(|m| matches!(m, It::WordB | It::SyllB)) => v.iter().any(|m| match m {
+            It::WordB => k >= n && after_rec(rest, flat, k),
+            It::SyllB => at_bound(k) && after_rec(rest, flat, k),
+            sm => k < n && sm.matches_seg(flat[k].0) && after_rec(rest, flat, k + 1),
+        }),
+        seg_it => k < n && seg_it.matches_seg(flat[k].0) && after_rec(rest, flat, k + 1),
     }
-    true
 }
+fn after_matches(items: &[It], flat: &[(SegBits, usize)], j: usize) -> bool { after_rec(items, flat, j + 1) }
 fn env_matches(e: &Env, flat: &[(SegBits, usize)], j: usize) -> bool {
     before_matches(&e.0, flat, j) && after_matches(&e.1, flat, j)
 }
@@ -181,51 +168,41 @@ fn item_on_run(it: &It, r: &Run) -> Option<bool> {
         _ => Some(false),
     }
 }
-fn before_matches_runs(items: &[It], flat: &[Run], j: usize) -> Option<bool> {
-    let mut k = j as isize - 1;
-    for it in items.iter().rev() {
-        match it {
-            It::WordB => { if k >= 0 { return Some(false); } }
-            It::SyllB => { if !(k < 0 || flat[k as usize].1 != flat[(k + 1) as usize].1) { return Some(false); } }
-            It::Set(v) if v.iter().any(|m| matches!(m, It::WordB | It::SyllB)) => {
-                let mut hit = false;
-                for m in v {
-                    match m {
-                        It::WordB => { if k < 0 { hit = true; break; } }
-                        It::SyllB => { if k < 0 || flat[k as usize].1 != flat[(k + 1) as usize].1 { hit = true; break; } }
-                        sm => { if k >= 0 && item_on_run(sm, &flat[k as usize])? { k -= 1; hit = true; break; } }
-                    }
-                }
-                if !hit { return Some(false); }
-            }
-            seg_it => { if k < 0 || !item_on_run(seg_it, &flat[k as usize])? { return Some(false); } k -= 1; }
-        }
+/// three-valued "and then": a definite mismatch decides, an undefined item makes the whole undefined, otherwise the rest decides
+fn then3(first: Option<bool>, rest: impl FnOnce() -> Option<bool>) -> Option<bool> { match first { Some(false) => Some(false), None => None, Some(true) => rest() } }
+/// three-valued "any": a definite match decides; otherwise undefined if some alternative was undefined
+fn any3(alts: impl Iterator<Item = Option<bool>>) -> Option<bool> { let mut undef = false; for a in alts { match a { Some(true) => return Some(true), None => undef = true, _ => {} } } if undef { None } else { Some(false) } }
+fn before_rec_runs(items: &[It], flat: &[Run], k: isize) -> Option<bool> {
+    let Some((it, rest)) = items.split_last() else { return Some(true) };
+    let at_bound = |k: isize| k < 0 || flat[k as usize].1 != flat[(k + 1) as usize].1;
+    match it {
+        It::WordB => then3(Some(k < 0), || before_rec_runs(rest, flat, k)),
+        It::SyllB => then3(Some(at_bound(k)), || before_rec_runs(rest, flat, k)),
+        It::Set(v) if v.iter().any(|m| matches!(m, It::WordB | It::SyllB)) => any3(v.iter().map(|m| match m {
+            It::WordB => then3(Some(k < 0), || before_rec_runs(rest, flat, k)),
+            It::SyllB => then3(Some(at_bound(k)), || before_rec_runs(rest, flat, k)),
+            sm => if k < 0 { Some(false) } else { then3(item_on_run(sm, &flat[k as usize]), || before_rec_runs(rest, flat, k - 1)) },
+        })),
+        seg_it => if k < 0 { Some(false) } else { then3(item_on_run(seg_it, &flat[k as usize]), || before_rec_runs(rest, flat, k - 1)) },
     }
-    Some(true)
 }
-fn after_matches_runs(items: &[It], flat: &[Run], j: usize) -> Option<bool> {
+fn before_matches_runs(items: &[It], flat: &[Run], j: usize) -> Option<bool> { before_rec_runs(items, flat, j as isize - 1) }
+fn after_rec_runs(items: &[It], flat: &[Run], k: usize) -> Option<bool> {
+    let Some((it, rest)) = items.split_first() else { return Some(true) };
     let n = flat.len();
-    let mut k = j + 1;
-    for it in items {
-        match it {
-            It::WordB => { if k < n { return Some(false); } }
-            It::SyllB => { if !(k >= n || flat[k].1 != flat[k - 1].1) { return Some(false); } }
-            It::Set(v) if v.iter().any(|m| matches!(m, It::WordB | It::SyllB)) => {
-                let mut hit = false;
-                for m in v {
-                    match m {
-                        It::WordB => { if k >= n { hit = true; break; } }
-                        It::SyllB => { if k >= n || flat[k].1 != flat[k - 1].1 { hit = true; break; } }
-                        sm => { if k < n && item_on_run(sm, &flat[k])? { k += 1; hit = true; break; } }
-                    }
-                }
-                if !hit { return Some(false); }
-            }
-            seg_it => { if k >= n || !item_on_run(seg_it, &flat[k])? { return Some(false); } k += 1; }
-        }
+    let at_bound = |k: usize| k >= n || flat[k].1 != flat[k - 1].1;
+    match it {
+        It::WordB => then3(Some(k >= n), || after_rec_runs(rest, flat, k)),
+        It::SyllB => then3(Some(at_bound(k)), || after_rec_runs(rest, flat, k)),
+        It::Set(v) if v.iter().any(|m| matches!(m, It::WordB | It::SyllB)) => any3(v.iter().map(|m| match m {
+            It::WordB => then3(Some(k >= n), || after_rec_runs(rest, flat, k)),
+            It::SyllB => then3(Some(at_bound(k)), || after_rec_runs(rest, flat, k)),
+            sm => if k >= n { Some(false) } else { then3(item_on_run(sm, &flat[k]), || after_rec_runs(rest, flat, k + 1)) },
+        })),
+        seg_it => if k >= n { Some(false) } else { then3(item_on_run(seg_it, &flat[k]), || after_rec_runs(rest, flat, k + 1)) },
     }
-    Some(true)
 }
+fn after_matches_runs(items: &[It], flat: &[Run], j: usize) -> Option<bool> { after_rec_runs(items, flat, j + 1) }
 fn any_env_runs(envs: &[Env], flat: &[Run], j: usize) -> Option<bool> {
     // every environment is evaluated, so that an ambiguous one is never hidden behind an earlier match
     let mut any = false;
